@@ -31,26 +31,109 @@ class _Interner:
     then semantic match: z3 proves forall bound vars. core1 == core2 under the current path condition."""
 
     def __init__(self):
-        self.tables = {}  # opkey -> list[(core_key, core_term, uf)]
+        self.tables = {}  # opkey -> list[(canon_id, inst_term, inst_args, uf)]
         self.count = 0
+        self.info = {}    # uf name -> (opkey, canonical core, placeholders, bound vars)
 
-    def get(self, opkey, core_key, core_term, bvars, n_out, e):
+    def get(self, opkey, core_term, bvars, n_out, e):
+        """returns app(out_idx) -> z3 term.  The core's free constants (batch indices, N, L, ...) are made explicit
+        arguments of the operator symbol, so that substituting a batch index in a result term (vmap / scan-map) is
+        sound and so that the same element function at different batch indices shares one symbol."""
         tab = self.tables.setdefault(opkey, [])
-        for ck, ct, uf in tab:
-            if ck == core_key:
-                return uf
-        if core_term is not None:
-            for ck, ct, uf in tab:
-                if ct is None:
-                    continue
-                st, _ = engine.check_sat(e.pc + e.hyps + [ct != core_term], timeout_ms=3000, try_abstract=True)
-                if st == "unsat":
-                    tab.append((core_key, core_term, uf))
-                    return uf
+        bids = {v.get_id() for v in bvars}
+        canon, args, phs = _canonical(core_term, bids)
+        cid = canon.get_id()
+        for ck, it, ia, uf in tab:
+            if ck == cid:
+                return lambda out, uf=uf, args=args: uf(*(list(args) + [smt.z(o) for o in out]))
+        sig = _uf_signature(core_term)
+        for ck, it, ia, uf in tab:
+            if _uf_signature(it) != sig:
+                continue  # cheap necessary condition: same uninterpreted function symbols
+            st, _ = engine.check_sat(e.pc + e.hyps + [it != core_term], timeout_ms=3000, try_abstract=True)
+            if st == "unsat":
+                return lambda out, uf=uf, ia=ia: uf(*(list(ia) + [smt.z(o) for o in out]))
         self.count += 1
-        uf = z3.Function(f"{opkey[0]}#{e.path_id}.{self.count}", *([z3.IntSort()] * n_out), z3.RealSort())
-        tab.append((core_key, core_term, uf))
-        return uf
+        doms = [a.sort() for a in args] + [z3.IntSort()] * n_out
+        nm = f"{opkey[0]}#{e.path_id}.{self.count}"
+        if doms:
+            uf = z3.Function(nm, *doms, z3.RealSort())
+        else:
+            cst = z3.Real(nm)
+            uf = _ConstUF(cst)
+        tab.append((cid, core_term, args, uf))
+        self.info[uf.name()] = (opkey, canon, phs, list(bvars))
+        _KEEP.append((canon, core_term))
+        return lambda out, uf=uf, args=args: uf(*(list(args) + [smt.z(o) for o in out]))
+
+
+_SIG_CACHE = {}
+
+
+def _uf_signature(term):
+    i = term.get_id()
+    if i in _SIG_CACHE:
+        return _SIG_CACHE[i]
+    names = set()
+    for x in smt.subterms(term):
+        if z3.is_app(x) and x.num_args() > 0 and x.decl().kind() == z3.Z3_OP_UNINTERPRETED:
+            names.add(x.decl().name())
+    r = frozenset(names)
+    _SIG_CACHE[i] = r
+    _KEEP.append(term)
+    return r
+
+
+class _ConstUF:
+    def __init__(self, c):
+        self.c = c
+
+    def __call__(self, *a):
+        return self.c
+
+    def name(self):
+        return self.c.decl().name()
+
+
+_KEEP = []
+_PH = {}
+
+
+def _placeholder(sort, j):
+    key = (sort.name(), j)
+    if key not in _PH:
+        _PH[key] = z3.Const(f"P!{sort.name()}!{j}", sort)
+    return _PH[key]
+
+
+def _canonical(term, bound_ids):
+    """replace the free 0-ary constants of term (in DFS order of first occurrence) by canonical placeholders"""
+    order, seen, stack = [], set(), [term]
+    visited = set()
+    while stack:
+        x = stack.pop()
+        i = x.get_id()
+        if i in visited:
+            continue
+        visited.add(i)
+        if z3.is_app(x):
+            if x.num_args() == 0:
+                if x.decl().kind() == z3.Z3_OP_UNINTERPRETED and i not in bound_ids and i not in seen:
+                    seen.add(i)
+                    order.append(x)
+            else:
+                stack.extend(reversed(x.children()))
+    counts = {}
+    subs, phs = [], []
+    for c in order:
+        sn = c.sort().name()
+        j = counts.get(sn, 0)
+        counts[sn] = j + 1
+        ph = _placeholder(c.sort(), j)
+        subs.append((c, ph))
+        phs.append(ph)
+    canon = z3.substitute(term, *subs) if subs else term
+    return canon, order, phs
 
 
 def interner(e):
@@ -82,8 +165,12 @@ def linear_apply(opname, opparams, A, t_axes, family, out_extra):
                 full.append(bv[t_axes.index(ax)])
             else:
                 full.append(next(bi))
-        with engine.no_div_guard():
+        rng = [z3.And(v >= 0, v < smt.z(sz)) for v, sz in zip(bv, sizes)]
+        e.hyps.extend(rng)  # obligations raised while evaluating the argument hold for every transformed index
+        try:
             t = smt.R(values.coerce(A.at_(tuple(full)), "real"))
+        finally:
+            del e.hyps[len(e.hyps) - len(rng):]
         if smt.is_conc(t):
             p = poly._const(t)
         else:
@@ -97,11 +184,11 @@ def linear_apply(opname, opparams, A, t_axes, family, out_extra):
         acc = 0
         for core in sorted(parts):
             coefp = parts[core]
-            core_term = poly.rebuild_mono(core)
+            core_term = poly.rebuild_mono(core, canonical=True)
             if core_term is None:
                 core_term = z3.RealVal(1)
-            uf = it.get((opname, keyparams), core, core_term, bv, len(out_idx), e)
-            val = uf(*[smt.z(o) for o in out_idx]) if out_idx else uf()
+            app = it.get((opname, keyparams), core_term, bv, len(out_idx), e)
+            val = app(out_idx)
             coef = poly.rebuild(coefp)
             c = smt.norm(coef)
             acc = smt.radd(acc, smt.rmul(c, val))
@@ -190,7 +277,9 @@ def _reduce_symbolic(op, A, axes, keepdims, where_):
             if op == "sum":
                 return _reduce_symbolic("sum", masked, axes, keepdims, None)
             cnt = _reduce_symbolic("sum", values.where(values.broadcast_to(W, A.shape), 1, 0), axes, keepdims, None)
-            return _reduce_symbolic("sum", masked, axes, keepdims, None) / cnt
+            tot = _reduce_symbolic("sum", masked, axes, keepdims, None)
+            # mean over an empty mask is NaN natively; exact arithmetic leaves the value unconstrained (no obligation)
+            return SArr(tot.shape, lambda i: smt.rdiv(tot.at_(i), cnt.at_(i), guard=False), "real")
         raise OutsideSubset(f"{op} with where=")
     if op in ("sum", "mean"):
         _u("jnp.sum/mean over symbolic-length axes = SUM/MEAN (opaque linear operator; MEAN = SUM / count)")
@@ -231,13 +320,14 @@ def aggregate_apply(opname, A, t_axes):
         t = z3.simplify(t)
         sizes = tuple(dim_term(A.shape[ax]) for ax in t_axes)
         keyparams = tuple(x if smt.is_conc(x) else ("z", x.get_id()) for x in sizes)
-        uf = interner(e).get((opname, keyparams), ("t", t.get_id()), t, bv, 0, e)
-        AGG_INFO[uf.name()] = (opname, t, bv, [A.shape[ax] for ax in t_axes])
-        return uf()
+        app = interner(e).get((opname, keyparams), t, bv, 0, e)
+        val = app(())
+        AGG_TERMS[val.get_id()] = (opname, val, t, bv, [dim_term(A.shape[ax]) for ax in t_axes])
+        return val
     return g
 
 
-AGG_INFO = {}
+AGG_TERMS = {}  # aggregate application -> (op, term, element function over bound vars, sizes): bound facts on demand
 
 
 def std(x, axis=None, keepdims=False):
@@ -382,34 +472,41 @@ def vmap(f, in_axes=0, out_axes=0):
                 outs.append(f(*call))
             return _tree_map(lambda *ls: values.stack(list(ls), 0), *outs)
         # symbolic batch size: run once at a symbolic batch index, then substitute
-        e = engine.cur()
-        b = z3.Int(e.fresh_name("vb"))
-        npc, ntr = len(e.pc), len(e.trace)
-        e.hyps.append(z3.And(b >= 0, b < smt.z(dim_term(n))))
-        try:
-            call = [a if ax is None else _tree_map(lambda l: values.getitem(const_arr(l), b), a) for a, ax in zip(args, axes)]
-            out = f(*call)
-        finally:
-            e.hyps.pop()
-        bid = frozenset([b.get_id()])
-        for c in e.pc[npc:]:
-            if poly.contains_any(c, bid):
-                raise OutsideSubset("vmap body branches on the batch index")
-
-        def lift(r):
-            r = const_arr(r)
-
-            def fn(idx):
-                e2 = engine.cur()
-                e2.hyps.append(z3.And(b >= 0, b < smt.z(dim_term(n))))
-                try:
-                    v = r.at_(idx[1:])
-                finally:
-                    e2.hyps.pop()
-                return subst_elem(v, b, idx[0])
-            return SArr((n,) + r.shape, fn, r.kind)
-        return _tree_map(lift, out)
+        return _symbolic_map(lambda b: f(*[a if ax is None else _tree_map(lambda l: values.getitem(const_arr(l), b), a)
+                                           for a, ax in zip(args, axes)]), n, "vb")
     return mapped
+
+
+def _symbolic_map(body, n, tag):
+    """out[j] = body(j) for 0 <= j < n (n symbolic): body is executed once on a symbolic index and must be
+    uniform in it (no python branch may depend on the index)"""
+    e = engine.cur()
+    b = z3.Int(e.fresh_name(tag))
+    npc = len(e.pc)
+    bound = z3.And(b >= 0, b < smt.z(dim_term(n)))
+    e.hyps.append(bound)
+    try:
+        out = body(b)
+    finally:
+        e.hyps.pop()
+    bid = frozenset([b.get_id()])
+    for c in e.pc[npc:]:
+        if poly.contains_any(c, bid):
+            raise OutsideSubset("mapped body branches on the batch / loop index")
+
+    def lift(r):
+        r = const_arr(r)
+
+        def fn(idx):
+            e2 = engine.cur()
+            e2.hyps.append(bound)
+            try:
+                v = r.at_(idx[1:])
+            finally:
+                e2.hyps.pop()
+            return subst_elem(v, b, idx[0])
+        return SArr((n,) + r.shape, fn, r.kind)
+    return _tree_map(lift, out)
 
 
 def subst_elem(v, var, val):
@@ -462,6 +559,15 @@ def scan(f, init, xs=None, length=None):
         else:
             ys = None
         return carry, ys
+    if init is None:
+        # stateless scan = map over the scanned index
+        def body(j):
+            x = _tree_map(lambda l: values.getitem(const_arr(l), j), xs) if xs is not None else None
+            carry, y = f(None, x)
+            if carry is not None:
+                raise OutsideSubset("scan with None init returned a carry")
+            return y
+        return None, _symbolic_map(body, n, "sj")
     raise OutsideSubset("lax.scan with a symbolic trip count and no invariant supplied by the contract")
 
 
